@@ -60,6 +60,9 @@ type CaseFile struct {
 	Shape string          `json:"shape"`
 	Case  json.RawMessage `json:"case"`
 	Exp   json.RawMessage `json:"exp,omitempty"`
+	// C14: also run the operations through pkg/cmd; CliFlag = the one extra flag tried alone on this case
+	Cli     bool   `json:"cli,omitempty"`
+	CliFlag string `json:"cliflag,omitempty"`
 }
 
 // ---- tokens <-> values --------------------------------------------------------------
